@@ -77,6 +77,34 @@ def allVqs (s : GStore) : List VQ := s.views.flatMap (·.vqs)
 def allBids (s : GStore) : List Bid := s.views.flatMap (·.bids)
 def allAuctions (s : GStore) : List Auction := s.views.map (·.a)
 
+/-! ### what the keeper's keyed getters use -/
+
+/-- the view filed under auction id `aid` -/
+def viewAt (s : GStore) (aid : Int) : Option AView := if 0 ≤ aid then s.views[aid.toNat]? else none
+
+/-- a `Walk` over the pairs with first component `aid` (`NewPrefixedPairRange(aid)`), key order -/
+def bidsOf (s : GStore) (aid : Int) : List Bid := ((s.viewAt aid).map (·.bids)).getD []
+def vqsOf (s : GStore) (aid : Int) : List VQ := ((s.viewAt aid).map (·.vqs)).getD []
+def allowedOf (s : GStore) (aid : Int) : List Allowed := ((s.viewAt aid).map (·.allowed)).getD []
+/-- a `Walk` over the whole `AllowedBidder` collection, as records -/
+def allAllowedRec (s : GStore) : List Allowed := s.views.flatMap (·.allowed)
+
+/-- `BidSeq.Get(aid)`: absent (not found) until the first bid of the auction -/
+def bidSeqGet (s : GStore) (aid : Int) : Int × Bool :=
+  match s.viewAt aid with
+  | some v => ((v.bidSeq : Int), decide (v.bidSeq = 0))
+  | none => (0, true)
+
+/-- `BidSeq.Set(aid, n)` -/
+def bidSeqSet (s : GStore) (aid : Int) (n : Int) : GStore :=
+  if 0 ≤ aid then s.modify aid (fun v => { v with bidSeq := n.toNat }) else s
+
+/-- `MatchedBidsLen.Get(aid)`: absent until the first batch calculation; the model keeps 0 then -/
+def matchedLenGet (s : GStore) (aid : Int) : Int × Bool :=
+  match s.viewAt aid with
+  | some v => (v.matchedLen, decide (v.matchedLen = 0))
+  | none => (0, true)
+
 end GStore
 
 namespace Go
